@@ -1108,6 +1108,21 @@ func (c *Ctx) IntToFP(a *Term, signed bool) *Term {
 		}
 		return c.FP(float64(a.K))
 	}
+	if !c.NoSimp {
+		// narrow: known leading zeros make the value non-negative and small
+		zm := c.zeroMask(a)
+		w := a.Sort.W
+		if zm>>(uint(w)-1)&1 == 1 {
+			n := bits.Len64(^zm & mask(w))
+			if n == 0 {
+				return c.FP(0)
+			}
+			if n < w {
+				return c.mk(OUIToFP, FPSort, 0, "", c.Extract(n-1, 0, a))
+			}
+			return c.mk(OUIToFP, FPSort, 0, "", a)
+		}
+	}
 	if signed {
 		return c.mk(OSIToFP, FPSort, 0, "", a)
 	}
